@@ -331,8 +331,8 @@ class ThreadPool(object):
             nb_threads = nb_pending_tasks
 
         # Create the threads
+        # (those tasks have already been counted by enqueue())
         for _ in range(nb_pending_tasks):
-            self.__nb_pending_task += 1
             self.__start_thread()
         for _ in range(nb_threads - nb_pending_tasks):
             self.__start_thread()
@@ -441,8 +441,11 @@ class ThreadPool(object):
             # Empty the current queue
             try:
                 while True:
-                    self._queue.get_nowait()
+                    task = self._queue.get_nowait()
                     self._queue.task_done()
+                    if task is not self._done_event:
+                        # Dropped task: it's not pending anymore
+                        self.__nb_pending_task -= 1
             except queue.Empty:
                 # Queue is now empty
                 pass
@@ -508,13 +511,14 @@ class ThreadPool(object):
 
                 # Clean up thread if necessary
                 with self.__lock:
-                    extra_threads = self.__nb_threads - self.__nb_active_threads
                     if (
                         self.__nb_threads > self._min_threads
-                        and extra_threads > self._queue.qsize()
+                        and self.__nb_threads > self.__nb_pending_task
                     ):
                         # No more work for this thread
-                        # if there are more non active_thread than task
+                        # if there are more threads than tasks queued or
+                        # being executed (a thread which has taken a task
+                        # from the queue might not be marked active yet)
                         # and we're above the  minimum number of threads:
                         # stop this one
                         self.__nb_threads -= 1
